@@ -280,7 +280,11 @@ class FixedWindowPolicy:
         # Wait until next window starts
         if self._current_window_start is None:
             return Duration.ZERO
-        next_window = self._current_window_start + self._window_size
+        # Same integer window length as _get_window_start(): adding the float size
+        # truncates a window below 1 ns to zero and reports capacity that
+        # try_acquire() then refuses.
+        window_ns = max(1, int(self._window_size * 1_000_000_000))
+        next_window = Instant(self._current_window_start.nanoseconds + window_ns)
         remaining = (next_window - now).to_seconds()
         if remaining <= 0:
             return Duration.ZERO
